@@ -231,6 +231,20 @@ PROPS = {
         level_note='No obligation proved; the induction on len(left) and the permutation loop invariant of DESIGN 6/C10 are not '
                    'discharged in this build.',
         technique='bounded run-time contracts with an independent wire-tracking oracle'),
+    'C18': dict(
+        title='Grammar front-ends only produce well-typed, grammatical derivations',
+        level='exploration',
+        vc=[], sym=[], rtc='C18',
+        level_text='Bounded stand-in: eager_parse on all sentences of <= 3 (sampled 4) words over a 10-word vocabulary incl. '
+                   'double adjoints and an empty word (empty domain, requested target, the words in order followed only by cups '
+                   'on adjacent adjoint types, re-derived independently by scanning), brute_force; CFG.generate over 40 seeds x 3 '
+                   'depth limits (derivation of the start symbol from the given productions, not_twice honoured); biclosed -> '
+                   'rigid: FA/BA over all pairs and FC/BC/FX/BX over triples of 10 slash types (nested, composite left and right '
+                   'sides), Curry for every 1 <= n_wires <= len(dom) on both sides, derivations and CCG trees: the image exists, '
+                   'is well-typed and its dom/cod are the images of dom/cod.',
+        level_note='No obligation proved. Contract precondition for Curry: 1 <= n_wires <= len(dom) (n_wires = 0 is outside the '
+                   'documented domain).',
+        technique='bounded run-time contracts with independent re-derivation of the parse'),
     'C05': dict(
         title='Interchange moves exactly one box past a disconnected neighbour',
         level='proof',
